@@ -4,8 +4,25 @@
 def setup(register, COMMON_TB):
     register(
         "C11", coq="C11", pkg="./internal/mode/static/nginx/file/", test="TestVerifC11",
-        rule="TODO",
-        trusted_base=COMMON_TB + [],
-        assumptions=[],
+        rule="histories = start-up cleanup, 2-4 generated file sets (<= 5 files, listeners/keys come and go, rare duplicate "
+             "paths, type flips, unmanaged paths), optional restarts, over a pre-populated tree (bootstrap files, leftovers of a "
+             "previous life incl. stale keys); per scenario the fault-free run, then single faults at every interface-call index "
+             "of every event (a failing write with 0 / some / all bytes through), single fault + crash/restart, and double faults "
+             "(sampled in quick); scenario size ramps with the index; non-trivial = at least one injected fault fired and a later "
+             "ReplaceFiles succeeded; distinct = distinct (history, observed trees)",
+        trusted_base=COMMON_TB + [
+            "fault model (modelled, not verified): a failing Remove/Create/Chmod/ReadDir changes nothing, a failing Write leaves a "
+            "prefix; os.Create truncates and keeps the mode of an existing file; f.Close() is not behind the OSFileManager "
+            "interface and is assumed not to fail; a crash after an operation = effect-free failure of the next one + restart",
+            "the fault-injecting, path-translating OSFileManager of the harness (temp directory instead of /etc/nginx) stands for the "
+            "file system; paths are (filepath.Dir, filepath.Base) pairs; managed folders are flat (no sub-directories)",
+            "ConfigFolders is read from internal/mode/static/nginx/config/generator.go by go/parser; the start-up order "
+            "(ClearFolders before NewManagerImpl in internal/mode/static/manager.go) is checked textually, not proved",
+            "the oracle's managed folders and bootstrap files are constants of coq/C11/Check.v (spec_folders, spec_bootstrap)",
+        ],
+        assumptions=[
+            "one ReplaceFiles at a time (ManagerImpl is documented as not thread safe; the event loop serialises calls)",
+            "nobody but the control plane writes into the managed folders after start-up cleanup",
+        ],
         timeout={"quick": 600, "thorough": 7200},
     )
